@@ -1,4 +1,5 @@
 import LolHtml.Model.NameHash
+import LolHtml.Model.NameHashDebug
 import LolHtml.Model.TagCfg
 import LolHtml.Model.TreeSim
 import LolHtml.Gen.Tags
@@ -219,6 +220,15 @@ example : NameHash.ofBytes [102, 111, 114, 101, 105, 103, 110, 111, 98, 106, 101
   revert this; decide +kernel
 
 
+/-- Minor defect (Debug output only): `impl Debug for LocalNameHash` decodes into a 12-byte buffer,
+so the valid 13-character hash of `foreignobject` (`Tag::ForeignObject`) prints as `oreignobject`;
+and the hash `0` of the empty name prints as `1`. (Checked against the real `Debug` by lane `hash`.) -/
+theorem C03_hash_debug_truncates :
+    NameHash.debugBytes (NameHash.ofBytes [102, 111, 114, 101, 105, 103, 110, 111, 98, 106, 101, 99, 116]) =
+      some [111, 114, 101, 105, 103, 110, 111, 98, 106, 101, 99, 116] ∧
+    NameHash.debugBytes (NameHash.ofBytes []) = some [49] := by
+  decide +kernel
+
 /-! ## 3. Ambiguity guard -/
 
 open LolHtml.Spec.Guard (Ev)
@@ -292,7 +302,7 @@ example :
 
 
 /-- The template depth stored in `InTemplateInSelect` is never 0 in a reachable state, so the
-`depth - 1` in `track_end_tag` (ambiguity_guard.rs:199, a `u64` subtraction) cannot underflow.
+`depth - 1` in `track_end_tag` (ambiguity_guard.rs:201, a `u64` subtraction) cannot underflow.
 (Every intermediate state of a run is the final state of a prefix run, so this covers all calls.) -/
 theorem C03_guard_depth_pos (cfg : TagCfg) (hside : Lemmas.Guard.Side cfg) (es : List Ev) (d : Nat)
     (h : Guard.run cfg .default es = .ok (.inTemplateInSelect d)) : 1 ≤ d := by
@@ -366,7 +376,7 @@ namespace stack is non-empty with `current_ns` on top and `Html` at the bottom; 
 `SetAllowCdata b` carries `b = (current_ns ≠ Html)`; no request is left pending; and a run can only
 be stopped by the guard's ambiguity error in strict mode — in particular the
 `debug_assert!(false, "Namespace stack should always have at least one item")` of `leave_ns`
-(mod.rs:191) and the `expect_tag!` assertions are unreachable. -/
+(mod.rs:192-195) and the `expect_tag!` assertions are unreachable. -/
 theorem C03_sim_invariants (cfg : TagCfg) (strict : Bool) (evs : List TagEvent) :
     (∀ p ∈ (Sim.run cfg (Sim.new strict) evs).1,
         p.1.nsStack ≠ [] ∧ p.1.nsStack.head? = some p.1.currentNs ∧ p.1.nsStack.getLast? = some .html ∧
@@ -382,6 +392,16 @@ theorem C03_sim_invariants (cfg : TagCfg) (strict : Bool) (evs : List TagEvent) 
   have := hi.top
   rw [hnil] at this
   cases this
+
+/-- non-vacuity: both outcomes occur — `<select><xmp>` is refused in strict mode and accepted
+(switching to RAWTEXT) in non-strict mode. -/
+example :
+    let sel : TagEvent := ⟨Gen.Tags.cfg.gSelect, ⟨true, [], [], false⟩⟩
+    let xmp : TagEvent := ⟨30293, ⟨true, [], [], false⟩⟩
+    (Sim.run Gen.Tags.cfg (Sim.new true) [sel, xmp]).2 = some (.ambiguity 30293) ∧
+    (Sim.run Gen.Tags.cfg (Sim.new false) [sel, xmp]).2 = none ∧
+    (Sim.run Gen.Tags.cfg (Sim.new false) [sel, xmp]).1.map (·.2) = [.none, .switchTextType .rawText] := by
+  decide +kernel
 
 /-- The single-step form (usable as an inductive invariant by the parser proofs). -/
 theorem C03_sim_step (cfg : TagCfg) (s : Sim) (h : Inv s) (ev : TagEvent) :
@@ -425,6 +445,14 @@ theorem C03_sim_html_only (cfg : TagCfg) (strict : Bool) (evs : List TagEvent)
             exact ⟨ev', by simpa using h1, by simpa using h2⟩
       · simp [Sim.run, he]
   exact gen evs (Sim.new strict) rfl rfl h
+
+/-- non-vacuity: `<div><textarea></textarea>` -/
+example :
+    let evs : List TagEvent := [⟨9691, ⟨true, [], [], false⟩⟩, ⟨870730390854, ⟨true, [], [], false⟩⟩,
+      ⟨870730390854, ⟨false, [], [], false⟩⟩]
+    (Sim.run Gen.Tags.cfg (Sim.new true) evs).1.map (·.2) = [.none, .switchTextType .rcData, .none] ∧
+    (∀ ev ∈ evs, ev.view.isStart = true → ev.hash ≠ Gen.Tags.cfg.svg ∧ ev.hash ≠ Gen.Tags.cfg.math) := by
+  decide +kernel
 
 /-- **Strict = non-strict at the simulator**: if the strict run is not refused, the non-strict run
 goes through the same namespace states and produces the same feedback, tag by tag (`erase` forgets
